@@ -91,6 +91,16 @@ func (t *T7) GetProv() Prov {
 	return t.P
 }
 
+// V0, V1: values of a non-pointer kind (structs passed by value). The zero value carries the zero
+// provenance, which is exactly what an absent optional dependency of that type must be.
+type (
+	V0 struct{ P Prov }
+	V1 struct{ P Prov }
+)
+
+func (v V0) GetProv() Prov { return v.P }
+func (v V1) GetProv() Prov { return v.P }
+
 // Interfaces for As. Every T implements all of them.
 type (
 	I0 interface {
@@ -148,6 +158,8 @@ var types = map[string]reflect.Type{
 	"T5": reflect.TypeOf((*T5)(nil)),
 	"T6": reflect.TypeOf((*T6)(nil)),
 	"T7": reflect.TypeOf((*T7)(nil)),
+	"V0": reflect.TypeOf(V0{}),
+	"V1": reflect.TypeOf(V1{}),
 	"I0": reflect.TypeOf((*I0)(nil)).Elem(),
 	"I1": reflect.TypeOf((*I1)(nil)).Elem(),
 	"I2": reflect.TypeOf((*I2)(nil)).Elem(),
@@ -208,6 +220,11 @@ func (k Key) String() string {
 // New makes a value of concrete type name ct ("T3") carrying p.
 func New(ct string, p Prov) reflect.Value {
 	t := Type(ct)
+	if t.Kind() == reflect.Struct {
+		v := reflect.New(t).Elem()
+		v.Field(0).Set(reflect.ValueOf(p))
+		return v
+	}
 	if t.Kind() != reflect.Ptr {
 		panic("univ: New of non-concrete type " + ct)
 	}
